@@ -13,6 +13,7 @@ func init() {
 	verifHarnesses["h02_witness"] = h02_witness
 	verifHarnesses["h02c"] = h02c
 	verifHarnesses["h02big"] = h02big
+	verifHarnesses["h02len"] = h02len
 }
 
 // h02: C02 — encode == spec bytes (value-based and streaming writer), decode
@@ -45,6 +46,9 @@ func h02() {
 	verifAssert(len(out2) == len(spec), "stream-write-len")
 	verifAssert(zzBytesDiff(out2, spec) == 0, "stream-write-bytes")
 
+	// (the pooled readers have seen failures before: see zzWarmFail)
+	zzWarmFail(verifParam("warm"))
+
 	// 3. random-access decoder
 	dv, err := Default.Decode(bytes.NewReader(spec), t)
 	verifAssert(err == nil, "decode-ok")
@@ -64,6 +68,58 @@ func h02() {
 	same, diff = zzDiff(sn, v)
 	verifAssert(same, "stream-read-shape")
 	verifAssert(diff == 0, "stream-read-leaves")
+
+	// 5. sources that return io.EOF together with the last bytes
+	os2 := &zzOneShot{b: spec, eofWithData: true}
+	sr2 := NewStreamReader(os2)
+	sn2, err := zzStreamRead(sr2, t)
+	sr2.Close()
+	verifAssert(err == nil, "stream-read-eof-with-data-ok")
+	same, diff = zzDiff(sn2, v)
+	verifAssert(same && diff == 0, "stream-read-eof-with-data-value")
+	dv2, err := Default.Decode(&zzEOFReaderAt{b: spec}, t)
+	verifAssert(err == nil, "decode-eof-with-data-ok")
+	dn2, err := zzFromWire(dv2)
+	verifAssert(err == nil, "decode-eof-with-data-force-ok")
+	same, diff = zzDiff(dn2, v)
+	verifAssert(same && diff == 0, "decode-eof-with-data-value")
+	verifReached("end")
+}
+
+// h02len: binaries whose length is around a power-of-two boundary
+// (250..260 bytes) round-trip through both writers and both readers.
+func h02len() {
+	l := 250 + verifChoice(11)
+	bin := make([]byte, l)
+	for i := range bin {
+		bin[i] = byte(i*5 + 1)
+	}
+	bin[0], bin[l-5], bin[l-1] = verifByte(), verifByte(), verifByte()
+	v := &zzNode{t: wire.TStruct, ids: []int16{1, 2}, kids: []*zzNode{{t: wire.TBinary, bin: bin}, {t: wire.TI8, num: uint64(verifByte())}}}
+	spec := zzSpecEncode(v, nil)
+	var buf bytes.Buffer
+	verifAssert(Default.Encode(zzToWire(v), &buf) == nil, "encode-ok")
+	verifAssert(buf.Len() == len(spec), "encode-len")
+	verifAssert(zzBytesDiff(buf.Bytes(), spec) == 0, "encode-bytes")
+	var buf2 bytes.Buffer
+	sw := NewStreamWriter(&buf2)
+	verifAssert(zzStreamWrite(sw, v) == nil, "stream-write-ok")
+	sw.Close()
+	verifAssert(buf2.Len() == len(spec), "stream-write-len")
+	verifAssert(zzBytesDiff(buf2.Bytes(), spec) == 0, "stream-write-bytes")
+	// strings take a different writer method
+	var buf3 bytes.Buffer
+	sw3 := NewStreamWriter(&buf3)
+	verifAssert(sw3.WriteString(string(bin)) == nil, "write-string-ok")
+	sw3.Close()
+	verifAssert(buf3.Len() == 4+l, "write-string-len")
+	verifAssert(zzBytesDiff(buf3.Bytes()[4:], bin) == 0 && int(buf3.Bytes()[3]) == l&255, "write-string-bytes")
+	dv, err := Default.Decode(bytes.NewReader(spec), wire.TStruct)
+	verifAssert(err == nil, "decode-ok")
+	dn, err := zzFromWire(dv)
+	verifAssert(err == nil, "decode-force-ok")
+	same, diff := zzDiff(dn, v)
+	verifAssert(same && diff == 0, "decode-value")
 	verifReached("end")
 }
 
